@@ -32,7 +32,7 @@ MANIFEST = dict(
     technique="TLA+ spec of the searcher's block scheduler and of the sort order (TLC exhaustive over all small timestamp layouts / value tables) + transition-by-transition replay on the real scheduler functions and the real sort processor, and e2e replay of enumerated layouts through ingest/flush/rotate/query with head, sort and paging",
     text=("spec/Searcher.tla transcribes getQSRSToProcess/getFilteredBlocks/sortBlocks/getNextBlocks/fetchRRCs/getValidRRCs for "
           "recentFirst and recentLast; TLC checks Sorted, NoDupOut, Complete, PrefixFinal, HeadOK, PagesPartition and NoLivelock "
-          "for ALL layouts of <=3 segments x <=2 blocks x <=2 records with timestamps 1..3/4 (ties, overlaps, out-of-order), "
+          "for ALL layouts of <=3 segments x <=2 blocks x <=2 records with timestamps 1..3/4 (ties, partial overlaps and containment of up to three ranges, out-of-order), "
           "maxBlocks 1..3. spec/SortOrder.tla states the documented sort order (rank, asc/desc, multi-key, values closer than "
           "1e-4) and TLC checks the strict-weak-order laws. Every generated scheduler behaviour is replayed step by step on the "
           "real functions (in-package) and the composed output checked against the property; every (sort spec, table) runs "
